@@ -66,8 +66,25 @@ type Case struct {
 	// node objects; they reach the file when the stream is closed, so the
 	// tree writer must not reuse storage between nodes.
 	InStream bool `json:"in_stream,omitempty"`
+	// Edits are size-preserving changes applied to the exported Data map of
+	// an InMemory tree after one full All() pass; the edited tree must then
+	// enumerate, look up and embed as the edited map.  EditDirect applies
+	// them to an InMemory value constructed directly from the map instead of
+	// the one returned by ExtractInMemory.  Skipped for maps above 1000 keys.
+	Edits      []Edit `json:"edits,omitempty"`
+	EditDirect bool   `json:"edit_direct,omitempty"`
 
 	obs observed
+}
+
+// Edit is one size-preserving change of an InMemory tree's Data map.
+type Edit struct {
+	// Kind: 0 rename entry I to an absent neighbour key (same position),
+	// 1 swap the values of entries I and J, 2 delete entry I and insert a
+	// new key above the maximum (or below the minimum).
+	Kind int `json:"kind"`
+	I    int `json:"i"`
+	J    int `json:"j"`
 }
 
 type observed struct {
@@ -105,6 +122,10 @@ type api[K comparable] struct {
 	inMemory func(r pdf.Getter, root pdf.Object) (reader[K], map[K]pdf.Object, bool, error)
 	size     func(r pdf.Getter, root pdf.Object) (int, error)
 	notFound error
+	// construct builds an InMemory tree directly around the given map.
+	construct func(data map[K]pdf.Object) reader[K]
+	// gap proposes absent keys between keys[i] and keys[j] (see run).
+	gap func(keys []K, i, j int) []K
 }
 
 var nameAPI = api[pdf.Name]{
@@ -142,8 +163,10 @@ var nameAPI = api[pdf.Name]{
 		}
 		return t, t.Data, false, err
 	},
-	size:     nametree.Size,
-	notFound: nametree.ErrKeyNotFound,
+	size:      nametree.Size,
+	notFound:  nametree.ErrKeyNotFound,
+	construct: func(data map[pdf.Name]pdf.Object) reader[pdf.Name] { return &nametree.InMemory{Data: data} },
+	gap:       nameGap,
 }
 
 var numAPI = api[pdf.Integer]{
@@ -174,8 +197,10 @@ var numAPI = api[pdf.Integer]{
 		}
 		return t, t.Data, false, err
 	},
-	size:     numtree.Size,
-	notFound: numtree.ErrKeyNotFound,
+	size:      numtree.Size,
+	notFound:  numtree.ErrKeyNotFound,
+	construct: func(data map[pdf.Integer]pdf.Object) reader[pdf.Integer] { return &numtree.InMemory{Data: data} },
+	gap:       numGap,
 }
 
 // ---------------------------------------------------------------------------
@@ -194,7 +219,7 @@ func checkCase(c *Case) error {
 			keys[i] = pdf.Name(k)
 		}
 		noteNameClasses(c, raw)
-		return run(c, nameAPI, keys, func(i, j int) []pdf.Name { return nameGap(raw, i, j) })
+		return run(c, nameAPI, keys)
 	case "num":
 		raw := expandNums(c.N, c.Style, c.Seed, c.ExtraNums)
 		keys := make([]pdf.Integer, len(raw))
@@ -202,7 +227,7 @@ func checkCase(c *Case) error {
 			keys[i] = pdf.Integer(k)
 		}
 		noteNumClasses(c, raw)
-		return run(c, numAPI, keys, func(i, j int) []pdf.Integer { return numGap(raw, i, j) })
+		return run(c, numAPI, keys)
 	}
 	return fmt.Errorf("bad case: tree kind %q", c.Tree)
 }
@@ -246,10 +271,10 @@ func values(c *Case, n int) []pdf.Object {
 
 // run writes the map, validates the raw tree and compares the readers.
 // keys must be sorted by a.less and free of duplicates (the expanders
-// guarantee this; it is re-checked here with the model's order).  gap(i, j)
+// guarantee this; it is re-checked here with the model's order).  a.gap(keys, i, j)
 // proposes absent keys strictly between keys[i] and keys[j]; i == -1 stands
 // for "below the minimum", j == len(keys) for "above the maximum".
-func run[K comparable](c *Case, a api[K], keys []K, gap func(i, j int) []K) error {
+func run[K comparable](c *Case, a api[K], keys []K) error {
 	n := len(keys)
 	c.obs.n = n
 	for i := 1; i < n; i++ {
@@ -307,23 +332,37 @@ func run[K comparable](c *Case, a api[K], keys []K, gap func(i, j int) []K) erro
 			}
 		}
 		// "no tree" is what a caller sees as a nil root
-		return compareReaders(c, a, r, nil, nil, nil, gap, nil)
+		return compareReaders(c, a, r, nil, nil, nil, nil)
 	}
 	if root == 0 {
 		return fmt.Errorf("map of %d entries: Write returned the zero reference", n)
 	}
 
-	// ---- structural validation of the raw nodes
+	if err := validateAndCompare(c, a, r, root, keys, vals, true); err != nil {
+		return err
+	}
+	if len(c.Edits) > 0 && n <= 1000 {
+		return editStep(c, a, r, root, keys, vals)
+	}
+	return nil
+}
+
+// validateAndCompare runs the structural validator over the raw nodes of the
+// tree at root and compares all readers with the model (keys, vals).
+func validateAndCompare[K comparable](c *Case, a api[K], r *pdf.Reader, root pdf.Reference, keys []K, vals []pdf.Object, record bool) error {
+	n := len(keys)
 	v := &validator[K]{a: a, r: r, seen: map[pdf.Reference]bool{}}
 	if _, _, err := v.node(root, true, 1); err != nil {
 		return err
 	}
-	for _, e := range v.leafEnd {
-		if e {
-			c.obs.leaves++
+	if record {
+		for _, e := range v.leafEnd {
+			if e {
+				c.obs.leaves++
+			}
 		}
+		c.obs.depth = v.maxDepth
 	}
-	c.obs.depth = v.maxDepth
 	if len(v.keys) != n {
 		return fmt.Errorf("the tree holds %d entries, the map has %d", len(v.keys), n)
 	}
@@ -335,14 +374,195 @@ func run[K comparable](c *Case, a api[K], keys []K, gap func(i, j int) []K) erro
 			return fmt.Errorf("raw value stored for key %s differs: %v", a.show(keys[i]), err)
 		}
 	}
+	return compareReaders(c, a, r, root, keys, vals, v.leafEnd)
+}
 
-	return compareReaders(c, a, r, root, keys, vals, gap, v.leafEnd)
+// editStep checks that an InMemory tree follows its exported Data map: after
+// one full All() pass the map is edited (size unchanged); All, Lookup and
+// Embed must then show exactly the edited map.  The embedded tree is written
+// to a fresh file and gets the full oracle.
+func editStep[K comparable](c *Case, a api[K], r *pdf.Reader, root pdf.Reference, keys0 []K, vals0 []pdf.Object) error {
+	keys := append([]K{}, keys0...)
+	vals := append([]pdf.Object{}, vals0...)
+	n := len(keys)
+
+	var tree reader[K]
+	var data map[K]pdf.Object
+	if c.EditDirect {
+		data = make(map[K]pdf.Object, n)
+		for i, k := range keys {
+			data[k] = vals[i]
+		}
+		tree = a.construct(data)
+		c.obs.flags["inmemory-constructed-edited"] = true
+	} else {
+		t, d, isNil, err := a.inMemory(r, root)
+		if err != nil || isNil {
+			return fmt.Errorf("edit step: ExtractInMemory failed: nil %v, err %v", isNil, err)
+		}
+		tree, data = t, d
+		c.obs.flags["inmemory-extracted-edited"] = true
+	}
+	cnt := 0
+	for range tree.All() {
+		cnt++
+	}
+	if cnt != n {
+		return fmt.Errorf("edit step: All() before the edits yielded %d entries, want %d", cnt, n)
+	}
+
+	// between returns an absent key strictly between entries lo and hi of
+	// the model (lo == -1 / hi == n: unbounded), judged by the model's order
+	between := func(lo, hi int) (K, bool) {
+		for _, k := range a.gap(keys, lo, hi) {
+			if lo >= 0 && !a.less(keys[lo], k) {
+				continue
+			}
+			if hi < len(keys) && !a.less(k, keys[hi]) {
+				continue
+			}
+			return k, true
+		}
+		var zero K
+		return zero, false
+	}
+	applied := 0
+	for e, ed := range c.Edits {
+		if len(keys) == 0 {
+			break
+		}
+		i := mod(ed.I, len(keys))
+		j := mod(ed.J, len(keys))
+		newVal := pdf.Array{pdf.Integer(-1 - e), pdf.Name("edited")}
+		switch mod(ed.Kind, 3) {
+		case 0: // rename in place
+			k, ok := between(i, i+1)
+			if !ok {
+				k, ok = between(i-1, i)
+			}
+			if !ok {
+				continue
+			}
+			data[k] = data[keys[i]]
+			delete(data, keys[i])
+			keys[i] = k
+			c.obs.flags["inmemory-edit-rename"] = true
+		case 1: // swap two values
+			if i == j {
+				continue
+			}
+			data[keys[i]], data[keys[j]] = data[keys[j]], data[keys[i]]
+			vals[i], vals[j] = vals[j], vals[i]
+			c.obs.flags["inmemory-edit-swap"] = true
+		case 2: // delete one entry, insert a new one at an end
+			if k, ok := between(len(keys)-1, len(keys)); ok && (i != len(keys)-1 || len(keys) == 1) {
+				delete(data, keys[i])
+				keys = append(append(keys[:i:i], keys[i+1:]...), k)
+				vals = append(append(vals[:i:i], vals[i+1:]...), newVal)
+				data[k] = newVal
+			} else if k, ok := between(-1, 0); ok && i != 0 {
+				delete(data, keys[i])
+				keys = append([]K{k}, append(keys[:i:i], keys[i+1:]...)...)
+				vals = append([]pdf.Object{newVal}, append(vals[:i:i], vals[i+1:]...)...)
+				data[k] = newVal
+			} else {
+				continue
+			}
+			c.obs.flags["inmemory-edit-move"] = true
+		}
+		applied++
+	}
+	if applied == 0 {
+		return nil
+	}
+	if len(data) != n || len(keys) != n {
+		return fmt.Errorf("internal: edits changed the size (%d, %d, want %d)", len(data), len(keys), n)
+	}
+	for i := 1; i < n; i++ {
+		if !a.less(keys[i-1], keys[i]) {
+			return fmt.Errorf("internal: edited model is not sorted at %d", i)
+		}
+	}
+
+	// All and Lookup of the edited in-memory tree
+	i := 0
+	for k, val := range tree.All() {
+		if i >= n || k != keys[i] {
+			return fmt.Errorf("InMemory.All after editing Data: entry %d has key %s, the edited map has %d entries and key %s there",
+				i, a.show(k), n, a.show(keys[min(i, n-1)]))
+		}
+		if err := vt.EqObj(vals[i], val); err != nil {
+			return fmt.Errorf("InMemory.All after editing Data: value of key %s: %v", a.show(k), err)
+		}
+		i++
+	}
+	if i != n {
+		return fmt.Errorf("InMemory.All after editing Data yielded %d entries, the edited map has %d", i, n)
+	}
+	inEdited := make(map[K]bool, n)
+	for i, k := range keys {
+		inEdited[k] = true
+		got, err := tree.Lookup(k)
+		if err != nil {
+			return fmt.Errorf("InMemory.Lookup(%s) after editing Data failed: %v", a.show(k), err)
+		}
+		if err := vt.EqObj(vals[i], got); err != nil {
+			return fmt.Errorf("InMemory.Lookup(%s) after editing Data: %v", a.show(k), err)
+		}
+	}
+	for _, k := range keys0 {
+		if inEdited[k] {
+			continue
+		}
+		if got, err := tree.Lookup(k); err == nil || !errors.Is(err, a.notFound) {
+			return fmt.Errorf("InMemory.Lookup(%s) for a key removed from Data returned %s, %v", a.show(k), vt.Show(got), err)
+		}
+	}
+
+	// Embed into a fresh file, then the full oracle on what was written
+	emb, ok := tree.(pdf.Embedder)
+	if !ok {
+		return fmt.Errorf("internal: %T is not a pdf.Embedder", tree)
+	}
+	out, mf := memfile.NewPDFWriter(versions[c.Version], &pdf.WriterOptions{HumanReadable: c.Human})
+	rm := pdf.NewResourceManager(out)
+	obj, err := rm.Embed(emb)
+	if err != nil {
+		return fmt.Errorf("Embed of the edited in-memory tree failed: %v", err)
+	}
+	if err := rm.Close(); err != nil {
+		return fmt.Errorf("ResourceManager.Close: %v", err)
+	}
+	if err := out.Close(); err != nil {
+		return fmt.Errorf("Writer.Close: %v", err)
+	}
+	root2, ok := obj.(pdf.Reference)
+	if !ok || root2 == 0 {
+		return fmt.Errorf("Embed of an in-memory tree of %d entries returned %s, want a reference", n, vt.Show(obj))
+	}
+	r2, err := pdf.NewReader(mf, int64(len(mf.Data)), nil)
+	if err != nil {
+		return fmt.Errorf("cannot re-open the file with the embedded tree: %v", err)
+	}
+	if err := validateAndCompare(c, a, r2, root2, keys, vals, false); err != nil {
+		return fmt.Errorf("tree embedded from the edited in-memory tree: %v", err)
+	}
+	c.obs.flags["inmemory-edited-then-embedded"] = true
+	return nil
+}
+
+func mod(a, n int) int {
+	a %= n
+	if a < 0 {
+		a += n
+	}
+	return a
 }
 
 // compareReaders compares Lookup / All of both readers and Size with the
 // model.  leafEnd[i] is true if entry i is the last of its leaf.
 func compareReaders[K comparable](c *Case, a api[K], r pdf.Getter, rootRef pdf.Object, keys []K, vals []pdf.Object,
-	gap func(i, j int) []K, leafEnd []bool) error {
+	leafEnd []bool) error {
 	n := len(keys)
 	ff, err := a.fromFile(r, rootRef)
 	if err != nil {
@@ -493,7 +713,7 @@ func compareReaders[K comparable](c *Case, a api[K], r pdf.Getter, rootRef pdf.O
 	}
 	for i := -1; i < n; i++ {
 		j := i + 1
-		cands := gap(i, j)
+		cands := a.gap(keys, i, j)
 		// keep only keys which really are absent and inside the gap, judged
 		// by the model's order
 		var absent []K
